@@ -317,6 +317,10 @@ pub fn worker_main(args: &[String]) -> i32 {
                 write_replay(&mc, &mh, &mv, minimised, case.ops.len(), hist.out.decisions.len())
             };
             res.violations.push((viol.clone(), path));
+            // remember it across a restart of this worker (a later abort must not make the next
+            // incarnation minimise and write the same class again)
+            finish_worker(&mut res, &triggers, &all_traces, &states, &out);
+            all_traces.clear();
         }
         if res.evaluated % 256 == 0 {
             // checkpoint: a later abort of this process must not lose the progress so far
@@ -561,6 +565,32 @@ pub fn drive_main(args: &[String]) -> i32 {
         std::fs::write(&path, serde_json::to_string_pretty(&rf).unwrap()).ok();
         total.violations.push((viol, path));
     }
+    // condemning runs could not be minimised inside the worker: do it here, one per class, with
+    // every candidate in a fresh process
+    {
+        let mut done: HashSet<(String, String)> = HashSet::new();
+        for (v, path) in total.violations.iter() {
+            let hard = v.clause == "deadlock" || v.clause == "livelock" || v.clause == "C07.abort";
+            if !hard || !done.insert((v.clause.clone(), v.sig.clone())) {
+                continue;
+            }
+            let rf: Option<ReplayFile> = std::fs::read_to_string(path).ok().and_then(|s| serde_json::from_str(&s).ok());
+            if let Some(mut rf) = rf {
+                if rf.minimised {
+                    continue;
+                }
+                let tmpf = format!("{}/target/min-{}.json", verif_dir(), std::process::id());
+                if let Some((c, s)) = minimize::minimise_hard(&rf.case, v, &tmpf, 250) {
+                    rf.original_ops = rf.case.ops.len();
+                    rf.case = c;
+                    rf.minimised = true;
+                    rf.log_hash = s.log_hash;
+                    std::fs::write(path, serde_json::to_string_pretty(&rf).unwrap()).ok();
+                }
+                std::fs::remove_file(&tmpf).ok();
+            }
+        }
+    }
     // known findings
     let kf: KnownFindings = std::fs::read_to_string(format!("{}/known-findings.json", verif_dir()))
         .ok()
@@ -586,6 +616,22 @@ pub fn drive_main(args: &[String]) -> i32 {
             println!("  clause={} sig={} :: {}", v.clause, v.sig, v.msg);
             nviol += 1;
             exit = 1;
+        }
+    }
+    // replay files written during this run that no reported violation refers to (left behind by
+    // worker incarnations that died before their first checkpoint) are scratch: remove them
+    {
+        let keep: HashSet<String> = total.violations.iter().map(|(_, p)| p.clone()).collect();
+        if let Ok(rd) = std::fs::read_dir(format!("{}/replays", verif_dir())) {
+            for e in rd.flatten() {
+                let p = e.path();
+                let ps = p.to_string_lossy().to_string();
+                let fresh = e.metadata().ok().and_then(|m| m.modified().ok()).and_then(|m| m.elapsed().ok()).map(|d| d.as_secs_f64() <= wall + 5.0).unwrap_or(false);
+                let mine = p.file_name().map(|n| n.to_string_lossy().starts_with(&format!("{}-", prop)) || n.to_string_lossy().starts_with("C07-")).unwrap_or(false);
+                if fresh && mine && !keep.contains(&ps) {
+                    std::fs::remove_file(&p).ok();
+                }
+            }
         }
     }
     // evidence
@@ -682,6 +728,24 @@ pub fn drive_main(args: &[String]) -> i32 {
 pub fn replay_main(path: &str) -> i32 {
     let s = std::fs::read_to_string(path).expect("read replay file");
     let rf: ReplayFile = serde_json::from_str(&s).expect("parse replay file");
+    if rf.violation.clause == "C07.abort" {
+        // the run kills its process: replay it in a child and look at how the child ended
+        let tmpf = format!("{}/target/replay-{}.json", verif_dir(), std::process::id());
+        let r = minimize::eval_in_subprocess(&rf.case, &tmpf);
+        std::fs::remove_file(&tmpf).ok();
+        println!("replay of {} (property {}, clause {}) in a child process", path, rf.property, rf.violation.clause);
+        return match r {
+            Some(s) if s.violations.iter().any(|v| v.clause == "C07.abort") => {
+                println!("VIOLATION property=C07 replay={}", path);
+                println!("  clause=C07.abort sig=process-abort :: {}", s.violations.iter().find(|v| v.clause == "C07.abort").map(|v| v.msg.clone()).unwrap_or_default());
+                1
+            }
+            _ => {
+                println!("violation NOT reproduced (the child process survived)");
+                0
+            }
+        };
+    }
     let (hist, v) = eval_case(&rf.case);
     let h = format!("{:016x}", hist_hash(&hist));
     println!("replay of {} (property {}, clause {}, sig {})", path, rf.property, rf.violation.clause, rf.violation.sig);
@@ -717,6 +781,7 @@ pub fn runcase_main(path: &str) -> i32 {
     let (hist, v) = eval_case(&case);
     println!("VERDICT {}", serde_json::to_string(&v.violations).unwrap());
     println!("DECISIONS {}", serde_json::to_string(&hist.out.decisions).unwrap());
+    println!("LOGHASH {:016x}", hist_hash(&hist));
     std::io::stdout().flush().ok();
     std::process::exit(0);
 }
